@@ -27,7 +27,9 @@ RULE = ("case = op list over a chain model: fund(address within gap beyond last 
         "non-trivial = a delivery round with >= 2 changed addresses that includes a spend of a wallet UTXO, or a burst of 2..3 further "
         "notifications for one address whose server history grows while its first notification is still being processed (part "
         "'burst': small fixed-shape histories, schedules expanded from a generated seed by a PRNG, mostly 'sticky' so that one task "
-        "runs many steps while another stays parked mid-way). distinct = canonical JSON.")
+        "runs many steps while another stays parked mid-way). Per case the wallet's header store is empty, holds the "
+        "server's blocks up to the tip, or stays one block behind (placed before every delivery), so that confirmed "
+        "transactions verify and are handled as verified ones. distinct = canonical JSON.")
 ASSUMPTIONS = [
     "server history order: confirmed by (height, position in block), then mempool in arrival order with height 0 / -1 (ElectrumX "
     "convention); claim/support scripts are indexed under their P2PKH address as the LBRY hub does",
